@@ -938,7 +938,9 @@ class ServerSSM(SSM):
                 pass
 
             else:
-                raise RuntimeError("invalid segmentation supported in device info")
+                # a value outside the enumeration (it came from the peer's
+                # I-Am) says nothing, the record is left alone
+                if _debug: ServerSSM._debug("    - unknown segmentation supported in device info")
 
         # decode the maximum that the client can receive in one APDU, and if
         # there is a value in the device information then use that one because
